@@ -257,8 +257,24 @@ def _check_property(a, pid, t0, work, viol_dir):
 def write_evidence(pid, a, scenarios, byrun, mc_info, s2i, states, nevents, n_viol, wall):
     ntfn = getattr(G, 'NONTRIVIAL', {}).get(pid, nontrivial_default)
     sigs = set()
+    ncases = 0
     for sc in scenarios:
-        if ntfn(sc):
+        if sc.get('kind') == 'encode':
+            # direct encoder runs: one case per (value, column); trivial = zero / empty values
+            for c in sc.get('cases', []):
+                ncases += 1
+                v = c['v']
+                raw = v.get('le') or v.get('b') or v.get('v') or []
+                if any(raw):
+                    sigs.add(json.dumps([v.get('k'), v.get('t'), raw if len(raw) <= 16 else [len(raw), raw[:8]], c['col']['ty'], c['col']['fl'], c.get('mode')]))
+            en = sc.get('enum')
+            if en:
+                n = 256 if en['k'] in ('i8', 'u8') else 65536
+                ncases += n * len(en['cols'])
+                for c in en['cols']:
+                    for x in range(1, n):
+                        sigs.add('%s/%d/%d/%d' % (en['k'], x, c['ty'], c['fl']))
+        elif ntfn(sc):
             sigs.add(sc.get('meta', {}).get('sig') or scen_sig(sc))
     stats = {}
     for v in byrun.values():
@@ -269,9 +285,9 @@ def write_evidence(pid, a, scenarios, byrun, mc_info, s2i, states, nevents, n_vi
         s = json.dumps(sc, separators=(',', ':'))
         samples.append(json.loads(s) if len(s) < 3000 else {'id': sc['id'], 'truncated': s[:3000]})
     cov = {
-        'evaluations': len(scenarios),
+        'evaluations': len([x for x in scenarios if x.get('kind') != 'encode']) + ncases,
         'distinct_nontrivial': len(sigs),
-        'rule': getattr(G, 'RULE', {}).get(pid, 'scenarios from TLC behaviours + seeded generators; distinct = distinct (client bytes, shim script, transport schedule); non-trivial = at least two commands after the handshake'),
+        'rule': getattr(G, 'RULE', {}).get(pid, 'connection scenarios from TLC behaviours + seeded generators: distinct = distinct (client bytes, shim script, transport schedule, fault plan), non-trivial = at least two commands after the handshake; direct encoder cases: distinct = distinct (Rust kind, value, column type, flags, mode), non-trivial = value not zero/empty'),
         'samples': samples,
         'states': max(1, mc_info.get('states', 0) + (states or 0)),
         'transitions': max(1, mc_info.get('transitions', 0) + nevents),
